@@ -178,6 +178,15 @@ def _inside_final(dl: str, full: str) -> bool:
     if not norm.startswith(dl + os.sep) or norm == dl:
         return False
     try:
+        # a symbolic link that was ALREADY in the download directory and stands where a directory is wanted is
+        # the owner's (followed by design when it leads to a directory; `makedirs` fails on a dangling one):
+        # the resolution through it is not the peer's doing — what is really written is judged by the
+        # effect-level monitor of the concurrent cases
+        d = os.path.dirname(norm)
+        while len(d) > len(dl):
+            if os.path.islink(d):
+                return True
+            d = os.path.dirname(d)
         rdl = os.path.realpath(dl)
         real = os.path.join(os.path.realpath(os.path.dirname(full)), os.path.basename(full))
         real = os.path.normpath(real)
@@ -390,7 +399,7 @@ async def _conc_main(loop: GatedLoop, case: dict, dl: str, tmp: str):
         return d, n
 
     sm.calculate_download_path = recording_calc
-    transfers, tasks, cut_now = {}, {}, {}
+    transfers, tasks, cut_now, runs = {}, {}, {}, {}
     reported: set = set()
     n_dl = len(case['downloads'])
     obs, model_lines = [], [_tree_lines(case['tree'])]
@@ -405,8 +414,8 @@ async def _conc_main(loop: GatedLoop, case: dict, dl: str, tmp: str):
     async def observe():
         await settle()
         for i, task in tasks.items():
-            if task.done() and (i, id(task)) not in reported:
-                reported.add((i, id(task)))
+            if task.done() and (i, runs[i]) not in reported:
+                reported.add((i, runs[i]))
                 model_lines.append(f"{'cut' if cut_now.get(i) else 'finish'} {i}")
                 obs.append('done')
         held = []
@@ -454,6 +463,7 @@ async def _conc_main(loop: GatedLoop, case: dict, dl: str, tmp: str):
         before = _all_entries(dl) if fresh_promised else set()
         n_before = len(choices)
         cut_now[i] = cut
+        runs[i] = runs.get(i, 0) + 1
         conn = _StubConnection(_payload(i)[tr.bytes_transfered:], cut)
         if fault != '-':
             faults.arm(fault)
@@ -598,19 +608,29 @@ CHAINS = ['DN', 'DN', 'DKN', 'DKN', 'KDN', 'DNK', 'NDK', 'NKD', 'KND', 'D', 'DK'
 
 # --- components that BECOME '.', '..', '' or a separator when something normalises them -------------
 # what a strip / trim / "remove junk characters" step takes away
-PADS = [' ', '  ', '\t', '\n', '\r', '\r\n', '\x0b', '\x0c', '\x1c', '\x1f', '\x7f', '\x85', '\xa0', '\xad',
-        ' ', ' ', ' ', ' ', ' ', '​', '‎', '‮', '⁠', '　', '﻿',
-        '.', '. ', ' .', '"', "'"]
-# what a Unicode (NFKC / confusables) / percent / entity decoding turns into dots and separators
-LOOKALIKES = ['‥', '．．', '․․', '․', '．', '…', '.．', '。。',
-              '｡｡', '··', '܁܁', '%2e%2e', '%2E%2E', '%2e', '.%2e', '%252e%252e',
-              '&#46;&#46;', '\\x2e\\x2e', '..%2f', '..%5c', '%2f..', '..%00', '..;', '..:', '..|', '..?', '..*', '..<',
-              '..>']
-N_UNICODE_LOOKALIKES = 11
-SEP_LIKE = ['／', '＼', '∕', '⁄', '⧸', '⧵', '∖', '%2f', '%5c', ':']
+def _u(*codes) -> str:
+    return ''.join(chr(c) for c in codes)
+
+
+PADS = ([' ', '  ', '\t', '\n', '\r', '\r\n', '\x0b', '\x0c', '\x1c', '\x1f', '\x7f', '.', '. ', ' .', '"', "'"]
+        # NEL, NBSP, soft hyphen, Ogham space, en quad, em space, thin space, line separator, zero-width space,
+        # LRM, RLO, word joiner, ideographic space, BOM
+        + [_u(c) for c in (0x85, 0xa0, 0xad, 0x1680, 0x2000, 0x2003, 0x2009, 0x2028, 0x200b, 0x200e, 0x202e, 0x2060,
+                           0x3000, 0xfeff)])
+# what a Unicode (NFKC / confusables) / percent / entity decoding turns into dots and separators:
+# two dot leader, fullwidth full stop x2, one dot leader x2 / x1, fullwidth full stop, ellipsis, mixed,
+# ideographic full stop x2, halfwidth ideographic full stop x2, middle dot x2, Syriac supralinear full stop x2
+UNICODE_DOTS = [_u(0x2025), _u(0xff0e, 0xff0e), _u(0x2024, 0x2024), _u(0x2024), _u(0xff0e), _u(0x2026),
+                '.' + _u(0xff0e), _u(0x3002, 0x3002), _u(0xff61, 0xff61), _u(0xb7, 0xb7), _u(0x701, 0x701)]
+LOOKALIKES = UNICODE_DOTS + ['%2e%2e', '%2E%2E', '%2e', '.%2e', '%252e%252e', '&#46;&#46;', '\\x2e\\x2e', '..%2f',
+                             '..%5c', '%2f..', '..%00', '..;', '..:', '..|', '..?', '..*', '..<', '..>']
+# fullwidth solidus / reverse solidus, division slash, fraction slash, big solidus / reverse solidus, set minus
+SEP_LIKE = [_u(c) for c in (0xff0f, 0xff3c, 0x2215, 0x2044, 0x29f8, 0x29f5, 0x2216)] + ['%2f', '%5c', ':']
 TRAILING = ['dir.', 'dir ', 'dir. .', 'dir..', ' dir', 'dir\t', 'x. ', 'x .', 'CON', 'nul', 'aux.txt', 'COM1', 'x::$DATA',
-            'x́', 'é', 'é', 'X', 'DIR', 'Dir']
-LONG_DIRS = ['D' * 255, 'D' * 256, 'é' * 127, 'é' * 128, '日' * 85, '日' * 86, 'M' * 1000, '. ' + 'P' * 254, 'Q' * 254 + '.']
+            'x' + _u(0x301), 'e' + _u(0x301), _u(0xe9), _u(0xff38), 'DIR', 'Dir']
+E_ACUTE, NICHI, NOTE = _u(0xe9), _u(0x65e5), _u(0x1f3b5)        # 2-, 3- and 4-byte characters
+LONG_DIRS = ['D' * 255, 'D' * 256, E_ACUTE * 127, E_ACUTE * 128, NICHI * 85, NICHI * 86, 'M' * 1000,
+             '. ' + 'P' * 254, 'Q' * 254 + '.']
 
 
 def _normalisable(rng: random.Random, nul_ok: bool) -> str:
@@ -637,8 +657,8 @@ def _normalisable(rng: random.Random, nul_ok: bool) -> str:
 
 def _long_name(rng: random.Random) -> str:
     """a file name around or beyond NAME_MAX bytes; multi-byte characters may straddle the limit"""
-    unit = rng.choice(['W', 'W', 'é', '日', '🎵', 'ab ', 'x.', 'Ω '])
-    ext = rng.choice(['.mp3', '.mp3', '.flac', '', '.é', '.' + 'e' * 20])
+    unit = rng.choice(['W', 'W', E_ACUTE, NICHI, NOTE, 'ab ', 'x.', _u(0x3a9) + ' '])
+    ext = rng.choice(['.mp3', '.mp3', '.flac', '', '.' + E_ACUTE, '.' + 'e' * 20])
     total = rng.choice([240, 249, 250, 251, 252, 253, 254, 255, 255, 256, 257, 259, 260, 300, 300, 511, 1000])
     room = max(total - _blen(ext), 1)
     stem = unit * (room // _blen(unit))
@@ -869,7 +889,7 @@ def _becomes_special(c: str) -> bool:
         return False
     junk = ''.join(p for p in PADS if len(p) == 1) + '\x00'
     return (c.strip(junk) in ('', '.', '..') or c.rstrip(' .') != c or _blen(c) > 200
-            or any(x in c for x in LOOKALIKES[:N_UNICODE_LOOKALIKES] + SEP_LIKE) or '%2' in c.lower())
+            or any(x in c for x in UNICODE_DOTS + SEP_LIKE) or '%2' in c.lower())
 
 
 def _nontrivial(case, obs) -> bool:
